@@ -22,7 +22,8 @@ KEY_REFLEXIVE = "C04:is_ancestor_of_not_reflexive_for_present_entity"
 THEOREMS = ["c04_closure_correct", "c04_closure_fuel", "c04_recompute_inv", "c04_recompute_reject",
             "c04_spec_op_inv", "c04_spec_op_reject", "c04_spec_op_cycle_rejected", "c04_history",
             "c04_queries", "c04_enforce", "c04_enforce_closed", "c04_inc_edit_parents_partial",
-            "c04_repair_correct", "c04_repair_sound", "c04_inc_refines_add_partial", "c04_inc_refines_remove_partial", "c04_inc_refines_upsert_partial"]
+            "c04_repair_correct", "c04_repair_sound", "c04_inc_refines_add_partial", "c04_inc_refines_remove_partial", "c04_inc_refines_upsert_partial",
+            "c04_upsert_latest"]
 
 MANIFEST = {
     "text": "Closure = reachability through direct parents (fuel proved sufficient); every successful ComputeNow operation of the spec layer and every history (fold_left) yields a store whose cached ancestors are exactly parent-reachability, acyclic, parents/indirect disjoint; rejection iff the edited parent graph has a cycle; is_ancestor_of / `e in a` / ancestor listing characterised under the invariant; enforce_tc_and_dag = Ok implies closed and acyclic (props/C04_TC.v). Tied to /repo by correspondence on operation histories (public API ComputeNow + core EnforceAlreadyComputed) against both model layers, plus an implementation-level oracle (independent BFS over the dumped direct parents, expected parent-graph edit, accept iff acyclic).",
